@@ -26,6 +26,9 @@ func txWorkload(e *Env, bounded int, setup func(r *Runner, g *Gen)) *Runner {
 		return r
 	}
 	r.CheckLocksIdle("after open")
+	if r.AfterCreate != nil {
+		r.AfterCreate()
+	}
 	if c.Tasks != nil {
 		for _, op := range c.Tasks["main"] {
 			if e.Failed() {
